@@ -138,8 +138,7 @@ def build():
         U.fn(ACC, 'RepositoryAccessProxy', 'get_publisher', external_body=True, ensures=[
             ('is_registered', 'r is Ok ==> registered(*self, *name) == Some(r->Ok_0)')]),
         U.fn(ACC, 'RepositoryAccessProxy', 'decode_and_validate',
-             subst=[('PublicationCms::decode(bytes).map_err(Error::Rfc8181)', 'PublicationCms::decode(bytes).map_err(|e| Error::Rfc8181(e))', 'R13'),
-                    ('.map_err(Error::Rfc8181)?;\n        Ok(msg)', '.map_err(|e| Error::Rfc8181(e))?;\n        Ok(msg)', 'R13')],
+             eta=['Error::Rfc8181'],
              ensures=[
             ('only_registered_identity_key', 'r is Ok ==> validated8181(*self, *publisher, r->Ok_0) && pcms_decode(bytes@) == Some(r->Ok_0)'),
             ('bad_signature_or_unknown_publisher_refused', '''pcms_decode(bytes@) is Some && registered(*self, *publisher) is Some
